@@ -230,12 +230,26 @@ pub struct Assertion {
     pub expr: Located<Expression>,
     pub snapshot: SymbolSnapshot,
     pub failure_message: Option<String>,
+    /// The segment the assertion was assembled into
+    pub segment: Option<Identifier>,
 }
 
 #[derive(Clone)]
 pub struct Trace {
     pub exprs: Vec<Located<Expression>>,
     pub snapshot: SymbolSnapshot,
+    /// The segment the trace was assembled into
+    pub segment: Option<Identifier>,
+}
+
+impl TestElement {
+    /// The segment the element was assembled into
+    pub fn segment(&self) -> Option<&Identifier> {
+        match self {
+            TestElement::Assertion(a) => a.segment.as_ref(),
+            TestElement::Trace(t) => t.segment.as_ref(),
+        }
+    }
 }
 
 impl CodegenContext {
@@ -613,6 +627,7 @@ impl CodegenContext {
                         expr: value.clone(),
                         snapshot: extracted_evaluator,
                         failure_message: interpolated_failure_message,
+                        segment: self.current_segment.clone(),
                     }));
                 }
             }
@@ -1227,6 +1242,7 @@ impl CodegenContext {
                     self.test_elements.push(TestElement::Trace(Trace {
                         exprs,
                         snapshot: extracted_evaluator,
+                        segment: self.current_segment.clone(),
                     }));
                 }
             }
